@@ -23,7 +23,7 @@ from . import core
 NPROC = int(os.environ.get('VERIF_NPROC', '16'))
 # stages every property shares (its own functions under concurrent calls / after call histories): added to the property's
 # FOUNDATIONS here rather than listed in every module; they yield cases only for properties they know (KERNELS)
-COMMON_STAGES = ['harness.foundation.concurrent', 'harness.foundation.soak']
+COMMON_STAGES = ['harness.foundation.concurrent', 'harness.foundation.soak', 'harness.foundation.gstate']
 
 
 def foundations_of(mod):
